@@ -7,6 +7,7 @@ Complete static argument (DESIGN.md section 4, C20):
     whose String is the single push onto the returned buffer;
  R3 the template makes the counter uniquely decodable (digit-only, delimited by non-digits).
 """
+from pat import core
 from facts import Undecided, loc, subterms, tstr, reads_of_stmt, reads_of_term, callee_name, operand_place, resolve_ref_local
 
 COUNTER = "serialize::TEMP_FILE_COUNTER"
@@ -78,6 +79,21 @@ def check(ctx):
         check_config(ctx, ctx.facts(cfg), cfg)
 
 
+def check_callers_pass_name_verbatim(ctx, F, tag):
+    """"The returned path contains the caller's name part": the library's own callers of temp_file_name (the `serialize::test`
+    helper, which hands the path back when asked to keep the file) pass the name they were given, not something computed from it."""
+    for b in F.all_bodies():
+        if "::tests::" in b.name or b.name == FUNC or b.name.startswith("internal::"):
+            continue
+        for bi, t in b.calls():
+            if callee_name(t) != FUNC:
+                continue
+            a = core(b.term_of_operand(t["args"][0]))
+            verbatim = a[0] in ("param", "const", "bytes", "constref", "promoted") or (a[0] == "ref" and core(a[1])[0] in ("const", "bytes", "static"))
+            ctx.ob("C20.R2.caller-passes-name-verbatim", b.name + tag, loc(t["sp"]), verbatim, "term-shape",
+                   "temp_file_name(%s): the name part is the caller's own parameter or a literal: %s" % (tstr(a)[:60], verbatim))
+
+
 def positive_identifications(ctx, F, tag):
     """Two shapes that break the property outright, recognised before the complete argument is attempted (which would only lose its
     anchors on them): the number in the name drawn from thread-local state, and the caller's name part rewritten after insertion."""
@@ -116,6 +132,7 @@ def positive_identifications(ctx, F, tag):
 
 
 def check_config(ctx, F, cfg):
+    check_callers_pass_name_verbatim(ctx, F, "" if cfg == "native" else "@" + cfg)
     if positive_identifications(ctx, F, "" if cfg == "native" else "@" + cfg):
         return
     st = F.statics.get(COUNTER)
